@@ -104,6 +104,7 @@ func runOpsProp(r *Run, prop string) error {
 	}
 	if prop == "C01" {
 		c01Epochs(r)
+		c01RandGenomes(r)
 	}
 	return nil
 }
@@ -215,6 +216,19 @@ func reapplyFamily(r *Run, o *opsGen, f *family, prop string) {
 			r.Count("reapply|"+opName(op)+"|"+out.before.str()+"|"+snap(out.child).str(), out.flag)
 		}
 		return out
+	}
+	// in-place chain on ONE genome object (no duplicate in between, so cached lookup structures of the
+	// genome are not rebuilt): add-node, re-enable everything, add-node again, ...
+	if chain, err := genetics.VDuplicate(g, 740); err == nil {
+		for k := 0; k < 4; k++ {
+			out := run(opSpec{Kind: "mut", Mut: 2, Times: 1}, chain)
+			if out.err != nil {
+				break
+			}
+			for _, x := range chain.Genes {
+				x.IsEnabled = true
+			}
+		}
 	}
 	for _, mut := range []int{2, 1} { // add_node, add_link
 		c1, err := genetics.VDuplicate(g, 700)
